@@ -29,7 +29,7 @@ PLANS["C05"] = {
 }
 
 PLANS["C08"] = {
-    "quick": [J("writers", "p=1,f=1", 30), J("writers", "f=2", 60), J("writers2", "p=2,f=1", 60), J("race-client", "free-running, -race", 120, test="TestE3", shards=1, race=True)],
+    "quick": [J("writers", "p=1,f=1", 30), J("writers", "f=2", 60), J("writers2", "p=2,f=1", 60), J("writers2", "p=1,f=2", 60), J("race-client", "free-running, -race", 120, test="TestE3", shards=1, race=True)],
     "thorough": [J("writers", "p=2,f=2,s=1", 900), J("writers2", "p=3,f=1,s=1,t=1", 600), J("race-client", "thorough", 300, test="TestE3", shards=1, race=True)],
 }
 PLANS["C10"] = {
